@@ -34,6 +34,17 @@ func Generate(dir, cmd string) (outputs []string, err1 error) {
 			return nil, err
 		}
 
+		// Remove the temporary files left behind by previous runs that did not
+		// complete so they do not end up in the generated package. Only the
+		// "gen" command owns the content of the gen directory.
+		if cmd == "gen" {
+			if stale, err := filepath.Glob(filepath.Join(path, "temp.*.go")); err == nil {
+				for _, f := range stale {
+					os.Remove(f) // nolint: errcheck
+				}
+			}
+		}
+
 		// We create a temporary Go file to make sure the directory is a valid Go package
 		dummy, err := os.CreateTemp(path, "temp.*.go")
 		if err != nil {
